@@ -407,5 +407,17 @@ RULE = ('boundary grid first: 3 signs x 5 magnitudes x (22 prefixes + none) x {b
         'trailing-newline and whitespace variants; then random structured cases (72% well-formed for some system, 15% one malformed component, 13% junk); '
         'qemu-img style fields (magnitude, optional unit, optional "(N bytes)" figure, e-notation, decorations); regex-engine cases; float-model cases; '
         'distinct = distinct case JSON; trivial = none')
-LEVEL_TEXT = ('see notes/C10.md')
-LEVEL_NOTE = ('see notes/C10.md')
+LEVEL_TEXT = ('Unbounded theorems (all texts, all unit-system strings): the unit systems are exactly IEC/SI/mixed; a regex of a system matches a text '
+              'iff it is [sign]number[prefix of the system]unit[newline]; every prefix a regex can capture is in the exponent table with the SI/IEC '
+              'exponent and the specified base (1024 IEC, 1000 SI, mixed by trailing i); not-admitted text or unknown system => ValueError; no other '
+              'exception except OverflowError under return_int when the float result is infinite (finding K14; unrestricted statement refuted by a '
+              'witness); an admitted text evaluates to float(number)[/8][*float(base^exp)] and return_int is the ceiling of that float; when the '
+              'magnitude is an integer, base^exp has <= 53 significant bits and the quantity is an integer < 2^53 the result is exactly that '
+              'integer (proved on SpecFloat, no axioms); _extract_bytes returns the "(N bytes)" figure whenever SIZE_RE finds one, otherwise uses '
+              'string_to_bytes(IEC, return_int). Tables and the four regexes are regenerated from the source on every run and enter the theorems '
+              'through computed checkers; the body of string_to_bytes is translated statement by statement and proved equal to the model. '
+              'Partial: non-representable products are only "the IEEE evaluation" (the oracle bounds the distance to the exact rational); '
+              '_extract_bytes is tied by correspondence, not by translation.')
+LEVEL_NOTE = ('Trusted: Coq kernel/vm_compute; translators (CPython re._parser via regex_tr, ast via gen_C10); models of CPython float()/int()/re/float '
+              'arithmetic/math.ceil/format(.0f) in Base/ (PyFloat.v on the stdlib SpecFloat operations), each re-validated bit-exactly against the '
+              'running interpreter on every run; int() digit limit 4300 as a constant. All Print Assumptions: Closed under the global context.')
